@@ -11,7 +11,7 @@ from ..evalr import Evaluator, mod_summary
 from ..model import walk_no_nested
 from ..mutants import M
 from .common import SELF, fold, loc_of, self_attr
-from .smcloop import SMC, find_smc_loop, fold_sample, history_appends
+from .smcloop import SMC, find_smc_loop, fold_sample, history_appends, roles
 
 META = {
     "explanation": (
@@ -147,7 +147,8 @@ def run(ctx):
     sf_res = fold_sample(repo, resumed=True, final=False)
     lpr = sf_res.loop
     # locals are handed to the parameter of the same meaning (a swap pickles the wrong thing under the key)
-    expect = {"samples": "samples", "iteration": "iterations", "beta": "beta", "min_step": "min_step"}
+    R = roles(repo)
+    expect = {"samples": R.samples, "iteration": R.iterations, "beta": R.beta, "min_step": R.min_step}
     wrong = {p_: a_ for p_, a_ in passed.items() if p_ in expect and a_ != expect[p_]}
     ctx.decide(not wrong, "C11.state", sample.ident, loc_of(sample, call), "each loop-carried local is passed to the payload parameter of the same meaning",
                f"build_checkpoint_state receives {wrong}: the payload stores a loop variable under another variable's key", disc="correspondence")
@@ -361,7 +362,7 @@ def run(ctx):
                 and T.linear_form(gval[1][2]).get((), 0) == -1:
             d_ = T.add(gval[1][2], T.ONE)
             # the temperature tested is the last recorded one, or the restored temperature when nothing was recorded
-            beta_pre = lpr["pre"].get("beta")
+            beta_pre = lpr["pre"].get(R.beta)
 
             def _last_beta(t):
                 if t[0] == "phi":
@@ -415,18 +416,6 @@ def run(ctx):
             pass
     conds = [s for s in T.subterms(rb) if s and s[0] == "f" and s[1] == "isinstance" and s[2][0] == src]
     names = {c[2][1][1].rsplit(".", 1)[-1] for c in conds if c[2][1][0] == "ref"}
-    raises = any(l == T.RAISE for l in T.phi_leaves(_state_term(evb, brf)))
-    st_term = T.strip_raise(_state_term(evb, brf))
-    def isinst(tname):
-        return ("f", "isinstance", (src, ("ref", f"builtins.{tname}")), ())
-    m_str = T.select(st_term, isinst("str"), True)
-    rest = T.select(st_term, isinst("str"), False)
-    m_bytes = T.select(rest, isinst("bytes"), True)
-    m_dict = T.select(T.select(rest, isinst("bytes"), False), isinst("dict"), True)
-    okm = m_str[0] == "f" and "load_checkpoint_from_file" in m_str[1] and src in m_str[2] \
-        and m_bytes[0] == "f" and m_bytes[1].endswith("pickle.loads") and m_bytes[2] == (src,) and m_dict == src
-    ctx.decide(okm, "C11.src", brf.ident, loc_of(brf), "str -> load_checkpoint_from_file(source); bytes -> pickle.loads(source); dict -> used as is",
-               f"checkpoint source dispatch is {T.show(st_term)[:260]}", disc="mapping")
     ctx.decide({"str", "bytes", "dict"} <= names, "C11.src", brf.ident, loc_of(brf),
                "restore_from_checkpoint dispatches on str (file), bytes (pickle) and dict sources",
                f"restore_from_checkpoint only dispatches on {sorted(names)}")
@@ -445,16 +434,14 @@ def run(ctx):
     # the builder reads the bytes at the configured group / dataset
     if okp and builder is not None:
         idx = int(T.const_value(from_builder[0][2]))
-        rets = [n for n in walk_no_nested(builder.node) if isinstance(n, ast.Return) and isinstance(n.value, ast.Tuple)]
-        name = rets[0].value.elts[idx].id if rets and isinstance(rets[0].value.elts[idx], ast.Name) else None
-        from ..evalr import Frame, State
-        fr = Frame(Evaluator(repo), builder, A, 0)
-        reads = []
-        for n in walk_no_nested(builder.node):
-            if isinstance(n, ast.Assign) and any(isinstance(t, ast.Name) and t.id == name for t in n.targets) and not (isinstance(n.value, ast.Constant) and n.value.value is None):
-                reads.append(fr.eval(n.value, State()))
-        want = ("s", ("s", T.atom("h5_file"), T.atom("checkpoint_path")), T.atom("checkpoint_dset"))
-        okp = bool(reads) and all(any(sub == want for sub in T.subterms(r)) for r in reads)
+        evbld = Evaluator(repo, max_depth=0)
+        rbld = T.strip_raise(evbld.run(builder, A))
+        elems = [l[1][idx] for l in T.phi_leaves(rbld) if l[0] == "t" and len(l[1]) > idx]
+        cpath, cdset = T.atom("checkpoint_path"), T.atom("checkpoint_dset")
+
+        def reads_ckpt(t):
+            return any(x[0] == "s" and x[2] == cdset and x[1][0] == "s" and x[1][2] == cpath for x in T.subterms(t))
+        okp = bool(elems) and all(reads_ckpt(el) or all(lf == T.NONE or reads_ckpt(lf) for lf in T.phi_leaves(el)) for el in elems) and any(reads_ckpt(el) for el in elems)
     ctx.decide(bool(okp), "C11.prime", rff.ident, loc_of(rff), "resume_from_file primes the instance with the bytes read from <checkpoint_path>/<checkpoint_dset> of the file",
                f"_resume_from_default is set to {T.show(prim)[:120] if prim else 'nothing'} (expected the bytes read from the file's checkpoint group/dataset)")
     sp = A.methods.get("sample_posterior")
